@@ -169,7 +169,7 @@ func (P *Program) genVCWith(key string, known map[string]Finding) (*gen, error) 
 		g = &gen{P: P, fn: fn, fs: fs, c: newSmtCtx(fs.Strings), key: key, name: shortKey(key),
 			oblNames: map[string]int{}, allVars: allVars, loopMods: loopMods, loopModsN: map[string]map[string]bool{},
 			deferIdx: map[*ssa.Defer]int{}, counters: map[string]int{}, used: map[string]bool{}, snapNames: map[string]bool{},
-			loopInfos: map[*ssa.Function]*loopInfo{}, localCell: map[string]string{}, fieldRefs: map[string]*fieldAccess{}, finalVals: map[*ssa.FreeVar]Val{}, lockSiteOrd: map[interface{}]int{}, iters: map[*ssa.Range]*iterInfo{}}
+			loopInfos: map[*ssa.Function]*loopInfo{}, localCell: map[string]string{}, fieldRefs: map[string]*fieldAccess{}, finalVals: map[*ssa.FreeVar]Val{}, pureCache: map[*SpecFunc]bool{}, lockSiteOrd: map[interface{}]int{}, iters: map[*ssa.Range]*iterInfo{}}
 		g.known = known
 		g.run()
 		stable := !g.newVars
@@ -295,7 +295,7 @@ func (g *gen) run() {
 	// preconditions
 	pe := g.topEnv(st, old, nil)
 	for _, c := range fs.Requires {
-		t, err := pe.trBool(c.E)
+		t, err := pe.trAssume(c.E)
 		if err != nil {
 			g.errorf("%s: requires [%s]: %v", g.name, c.Label, err)
 			continue
@@ -399,7 +399,7 @@ func (g *gen) checkExit(n *node, st *State, results []Val, panicking bool) {
 		kind = "ensures_on_panic"
 	}
 	for i, c := range clauses {
-		t, err := e.trBool(c.E)
+		t, err := e.trAssert(c.E)
 		if err != nil {
 			g.errorf("%s: %s [%s]: %v", g.name, kind, c.Label, err)
 			continue
@@ -598,7 +598,7 @@ func (g *gen) checkTypeInvs(n *node, st *State, results []Val) {
 		}
 		g.inTypeInv = true
 		e := &env{g: g, vars: map[string]binding{ti.Var: {term, xtOf(rt)}}, st: st, old: st, pkgPath: ti.PkgPath, imports: ti.Imports}
-		tt, err := e.trBool(ti.E)
+		tt, err := e.trAssert(ti.E)
 		g.inTypeInv = false
 		if err != nil {
 			g.errorf("typeinv %s: %v", ti.Type, err)
@@ -657,7 +657,7 @@ func (g *gen) checkExitLocal(fr *frame, ex exitRec) {
 		}
 	}
 	for _, c := range g.fs.EnsuresLocal {
-		t, err := e.trBool(c.E)
+		t, err := e.trAssert(c.E)
 		if err != nil {
 			if strings.Contains(err.Error(), "unknown identifier") {
 				continue // a local that is not defined on the path to this exit: the clause does not apply here
